@@ -2974,7 +2974,7 @@ class Qube(object):
         self._require_inplace_shape(arg._shape_, '+=')
         new_derivs = self._add_derivs(self,arg) # if this raises exception, stop
         self._values_ += arg._values_           # on exception, no harm done
-        self._mask_ = Qube.or_(self._mask_, arg._mask_)
+        self._mask_ = self._merged_mask(arg._mask_)
         self._units_ = self._units_ or arg._units_
         self.insert_derivs(new_derivs)
 
@@ -3096,7 +3096,7 @@ class Qube(object):
         self._require_inplace_shape(arg._shape_, '-=')
         new_derivs = self._sub_derivs(self,arg) # if this raises exception, stop
         self._values_ -= arg._values_           # on exception, no harm done
-        self._mask_ = Qube.or_(self._mask_, arg._mask_)
+        self._mask_ = self._merged_mask(arg._mask_)
         self._units_ = self._units_ or arg._units_
         self.insert_derivs(new_derivs)
 
@@ -3228,7 +3228,7 @@ class Qube(object):
             self._require_inplace_shape(arg._shape_, '*=')
             new_derivs = self._mul_derivs(arg)  # if this raises exception, stop
             self._values_ *= arg_values         # on exception, object unchanged
-            self._mask_ = Qube.or_(self._mask_, arg._mask_)
+            self._mask_ = self._merged_mask(arg._mask_)
             self._units_ = Units.mul_units(self._units_, arg._units_)
             self.insert_derivs(new_derivs)
 
@@ -3577,7 +3577,7 @@ class Qube(object):
                                                     self._rank_ * (1,))
             self._require_inplace_shape(arg._shape_, '//=')
             self._values_ //= div_values
-            self._mask_ = self._mask_ | divisor._mask_
+            self._mask_ = self._merged_mask(divisor._mask_)
             self._units_ = Units.div_units(self._units_, arg._units_)
             self.delete_derivs()
 
@@ -3710,7 +3710,7 @@ class Qube(object):
                                                     self._rank_ * (1,))
             self._require_inplace_shape(arg._shape_, '%=')
             self._values_ %= div_values
-            self._mask_ = self._mask_ | divisor._mask_
+            self._mask_ = self._merged_mask(divisor._mask_)
             self._units_ = Units.div_units(self._units_, arg._units_)
 
             self._cache_.clear()
@@ -4090,7 +4090,7 @@ class Qube(object):
 
         if isinstance(arg, Qube):
             self._values_ &= (arg._values_ != 0)
-            self._mask_ = Qube.or_(self._mask_, arg._mask_)
+            self._mask_ = self._merged_mask(arg._mask_)
         else:
             self._values_ &= (arg != 0)
 
@@ -4107,7 +4107,7 @@ class Qube(object):
 
         if isinstance(arg, Qube):
             self._values_ |= (arg._values_ != 0)
-            self._mask_ = Qube.or_(self._mask_, arg._mask_)
+            self._mask_ = self._merged_mask(arg._mask_)
         else:
             self._values_ |= (arg != 0)
 
@@ -4124,7 +4124,7 @@ class Qube(object):
 
         if isinstance(arg, Qube):
             self._values_ ^= (arg._values_ != 0)
-            self._mask_ = Qube.or_(self._mask_, arg._mask_)
+            self._mask_ = self._merged_mask(arg._mask_)
         else:
             self._values_ ^= (arg != 0)
 
@@ -4473,6 +4473,19 @@ class Qube(object):
 
         raise TypeError('unsupported operand type for %s: %s'
                         % (opstr, type(obj2).__name__))
+
+    #===========================================================================
+    def _merged_mask(self, mask):
+        """The mask of this object or-ed with the mask of an in-place operand,
+        which might have a smaller shape; the result is a bool or has the shape
+        of this object.
+        """
+
+        new_mask = Qube.or_(self._mask_, mask)
+        if np.shape(new_mask) and np.shape(new_mask) != self._shape_:
+            new_mask = np.broadcast_to(new_mask, self._shape_).copy()
+
+        return new_mask
 
     #===========================================================================
     def _require_inplace_shape(self, arg_shape, op):
